@@ -21,3 +21,41 @@ def rsetsAll : List (Nat × Nat × (Nat → Nat)) → List (List (List Nat))
     ((List.range cnt).map (rsetsOf ((rr, loc) :: rest.map fun l => (l.2.1, l.2.2)))) :: rsetsAll rest
 
 end TN
+
+namespace TN
+variable {R : Type}
+
+/-- `lsets[j]` (without the code's dummy leading column), listed from the LAST mode to the first: the levels are given latest
+    first as `(I_{j-1}, local_{j-1}) :: …`; cross.py:404-405 `local_r, local_i = unravel_index(local, [Rs[j], Is[j]])`,
+    `lsets[j+1] = c_[lsets[j][local_r, :], local_i]` -/
+def lsetsRev : List (Nat × (Nat → Nat)) → Nat → List Nat
+  | [] => fun _ => []
+  | (n, loc) :: earlier => fun k => (loc k % n) :: lsetsRev earlier (loc k / n)
+
+/-- all left index sets in the code's orientation (first mode first), one list of rows per level, earliest level first -/
+def lsetsAll : List (Nat × Nat × (Nat → Nat)) → List (List (List Nat))
+  | [] => []
+  | (cnt, n, loc) :: earlier =>
+    lsetsAll earlier ++ [(List.range cnt).map fun k => (lsetsRev ((n, loc) :: earlier.map fun l => (l.2.1, l.2.2)) k).reverse]
+
+section
+variable [Zero R] [One R] [Add R] [Mul R]
+
+/-- left interface of an argument tensor (cross.py:406-411, `einsum('ai,iaj->aj', linterface[j][local_r, :], core[:, local_i, :])`),
+    levels latest first; `t_linterfaces[k][0] = ones(1, 1)` (cross.py:119-121) -/
+def linterface : List (Mode R × (Nat → Nat)) → Nat → Nat → R
+  | [] => fun _ _ => 1
+  | (m, loc) :: earlier => fun a q => sumTo m.rl fun p => linterface earlier (loc a / m.n) p * m.G (loc a % m.n) p q
+
+/-- right interface of an argument tensor (cross.py:441-446, `einsum('iaj,ja->ia', core[:, local_i, :], rinterface[j][:, local_r])`);
+    a level is `(mode of the argument tensor, R_{j+1} of the RESULT (the unravel divisor), local_j)` -/
+def rinterface : List (Mode R × Nat × (Nat → Nat)) → Nat → Nat → R
+  | [] => fun _ _ => 1
+  | (m, rr, loc) :: rest => fun p a => sumTo m.rr fun q => m.G (loc a / rr) p q * rinterface rest q (loc a % rr)
+
+/-- the argument handed to the user's function for fibre `(a, i, b)` of mode `j` (cross.py:313-318,
+    `einsum('ai,ibj,jc->abc', linterface[j], core[j], rinterface[j])`) -/
+def evalPoint (L : Nat → Nat → R) (m : Mode R) (Rt : Nat → Nat → R) (a i b : Nat) : R :=
+  sumTo m.rl fun p => sumTo m.rr fun q => L a p * m.G i p q * Rt q b
+end
+end TN
